@@ -1,5 +1,5 @@
 CONSTANTS
-  Ops = {"o1", "o2", "o3", "o4"}
+  Ops = {"o1", "o2", "o3", "o4", "o5", "o6", "o7", "o8"}
 SPECIFICATION TSpec
 INVARIANTS Report
 POSTCONDITION Accepted
